@@ -406,7 +406,8 @@ fn shard_search<P: Property>(
         failure_persistence: None,
         rng_seed: RngSeed::Fixed(seed),
         max_shrink_iters: prop.shrink_iters(),
-        max_shrink_time: 0,
+        // (shrinking a failure of an expensive case - heavy pattern sets, 100 000-line inputs - is cut off after four minutes)
+        max_shrink_time: 240_000,
         max_local_rejects: 1,
         max_global_rejects: 1,
         verbose: 0,
